@@ -83,8 +83,15 @@ func c10Programs(depth int) []*gen.Program {
 			for _, l := range l1 {
 				mk(gen.SubDef{Name: "s", Body: []gen.Node{l}}, wrap(f, gen.SubCall{Name: "s"}))
 			}
-			for _, b := range blocks[:4] {
-				mk(gen.SubDef{Name: "s", Body: []gen.Node{gen.Lit{S: "a"}, wrap(f, gen.Seq{Items: []gen.Node{gen.SubCall{Name: "s"}, b}})}})
+			// recursion behind every kind of consuming guard (a guard that stops consuming at end of
+			// input without failing turns guarded recursion into endless recursion)
+			guards := []gen.Node{gen.Lit{S: "a"}, gen.Lit{S: "a", Not: true}, gen.Class{Kind: "any"}, gen.Class{Kind: "letter"}, gen.Class{Kind: "digit", Not: true},
+				gen.In{Not: true, Items: []gen.ListItem{{Kind: "lit", S: "a"}}}, gen.In{Items: []gen.ListItem{{Kind: "lit", S: "a"}, {Kind: "range", From: "b", To: "b"}}}}
+			for _, gd := range guards {
+				mk(gen.SubDef{Name: "s", Body: []gen.Node{gd, wrap(f, gen.SubCall{Name: "s"})}})
+				for _, b := range blocks[:4] {
+					mk(gen.SubDef{Name: "s", Body: []gen.Node{gd, wrap(f, gen.Seq{Items: []gen.Node{gen.SubCall{Name: "s"}, b}})}})
+				}
 			}
 		}
 	}
@@ -113,7 +120,7 @@ func C10(r *drv.Run) {
 	progs := c10Programs(depth)
 	texts := allTexts("ab\n", tlen)
 	r.Exhaustive = true
-	r.Rule = fmt.Sprintf("bounded-progress form of termination: every Run must return within %d VM steps (hook H1), a budget fixed at >= 100x the largest step count the enumerated scope needs on the unchanged tree. Scope enumerated completely: all programs of loop-nesting depth <= %d over nullable building blocks (literal, not-literal, any, line/word/file anchors and their negations, the empty group, not-in, whole word/line; loop forms maybe, at least 0, at most 2, between 0 and 2, at least 1, greedy and fewest; loops over loops, over (block loop) and over (loop or block); nullable bodies in subroutines called from loops; guarded recursion) x all %d inputs over {a,b,\\n} up to length %d; plus seeded random deeper programs on inputs <= 8 bytes (there an over-budget run is skipped, not judged: crashes and guard trips still count). Non-trivial = the program contains an optional loop whose body can match the empty string and the run executed a loop instruction; distinct by (program, input).", budget, depth, len(texts), tlen)
+	r.Rule = fmt.Sprintf("bounded-progress form of termination: every Run must return within %d VM steps (hook H1), a budget fixed at >= 100x the largest step count the enumerated scope needs on the unchanged tree. Scope enumerated completely: all programs of loop-nesting depth <= %d over nullable building blocks (literal, not-literal, any, line/word/file anchors and their negations, the empty group, not-in, whole word/line; loop forms maybe, at least 0, at most 2, between 0 and 2, at least 1, greedy and fewest; loops over loops, over (block loop) and over (loop or block); nullable bodies in subroutines called from loops; recursion guarded by each kind of consuming element: literal, not-literal, any, class, negated class, not-in, in) x all %d inputs over {a,b,\\n} up to length %d; plus seeded random deeper programs on inputs <= 8 bytes (there an over-budget run is skipped, not judged: crashes and guard trips still count). Non-trivial = the program contains an optional loop whose body can match the empty string and the run executed a loop instruction; distinct by (program, input).", budget, depth, len(texts), tlen)
 	r.Assumptions = []string{
 		"unbounded 'always terminates' is restated as 'returns within the step budget'; max observed steps are in the evidence so the margin is visible",
 		"recursion only behind a consumed byte; no process-code loops",
